@@ -105,6 +105,17 @@ func c15JoinEvents(w *ndWriter, o json.RawMessage, os string, c string, depth in
 	}
 }
 
+// c15Typed gives the value the type name the case asks for (the generic names are vocabulary types too)
+func c15Typed(it ap.Item, tn string) ap.Item {
+	switch v := it.(type) {
+	case *ap.Object:
+		v.Type = ap.ActivityVocabularyType(tn)
+	case *ap.Actor:
+		v.Type = ap.ActivityVocabularyType(tn)
+	}
+	return it
+}
+
 func c15Value(kind string, id string, c string, explicit J) ap.Item {
 	var exp ap.Item
 	switch explicit["k"] {
@@ -181,12 +192,13 @@ func init() {
 				IDs      string          `json:"ids"`
 				C        string          `json:"c"`
 				Explicit J               `json:"explicit"`
+				Tn       string          `json:"tn"`
 			}
 			if err := json.Unmarshal(raw, &cs); err != nil {
 				return err
 			}
 			for _, fn := range []string{"Of", "IRI"} {
-				it := c15Value(cs.Kind, cs.IDs, cs.C, cs.Explicit)
+				it := c15Typed(c15Value(cs.Kind, cs.IDs, cs.C, cs.Explicit), cs.Tn)
 				var res string
 				if p := guard(func() {
 					if fn == "Of" {
@@ -206,7 +218,7 @@ func init() {
 				}
 				if fn == "Of" {
 					// AddTo on a fresh value of the same shape
-					it2 := c15Value(cs.Kind, cs.IDs, cs.C, cs.Explicit)
+					it2 := c15Typed(c15Value(cs.Kind, cs.IDs, cs.C, cs.Explicit), cs.Tn)
 					var iri ap.IRI
 					var status bool
 					guard(func() { iri, status = ap.CollectionPath(cs.C).AddTo(it2) })
